@@ -209,6 +209,9 @@ func sequencePurity(ctx *core.Ctx) {
 		"a AND", "(a b", "x y)", "a:[1 TO", `"unterminated`, "a:b:c", "a:!", "", "a:b~2 AND c:d", "n:[1 TO 5] OR m:(1 OR 2)", "+x -y", "5", "a:5 b",
 		// pairs that plausible cache keys would confuse: regrouped, re-spaced, quoted vs bare
 		"p:1 AND q:2 OR r:3", "p:1 AND (q:2 OR r:3)", "pp:1 OR qq:2 AND rr:3", "(pp:1 OR qq:2) AND rr:3", "-(a:1 OR b:2) AND c:3", "-a:1 OR b:2 AND c:3",
+		// a lone wildcard as bound and value before and after it was seen as a field name; a value
+		// spelled like a field; equal list members; failing lists before valid ones
+		"f:[* TO 5]", "f:{2 TO *}", "f:*", "NOT h:*", "*:x", "*:[1 TO 3]", "?:a", "f:[* TO 9]", "g:*", "a:a", "b:a AND a:1", "a:(a OR b)", "t:(x OR x)", "f:(\"it\" OR \"b\x00\")", "g:(\"s\" OR \"x y\")", "h:(1 OR \"1\")",
 		`k:"7"`, "k:7", "k:7.0", `a:["1" TO "5"]`, "a:[1 TO 5]", "a:b  AND  c", "A:b AND c", "a:b and c", `a:"b" AND c`, "a:(b) AND c", "a:b* AND c", `a:"b*" AND c`}
 	opts := []string{"", "dfa", "my field", ""}
 	call := func(fn int, q, df string, explicitEmpty bool) string {
@@ -301,10 +304,21 @@ func (c14) RunBatch(ctx *core.Ctx, batch int) {
 	// shared expressions and their untouched twins
 	shared := make([]*expr.Expression, len(qs))
 	twins := make([]*expr.Expression, len(qs))
+	printed := make([]string, len(qs)) // what each expression looked like the moment Parse returned it
 	for i, q := range qs {
 		shared[i], _ = lucene.Parse(q)
+		printed[i] = fmt.Sprintf("%#v", shared[i])
 		twins[i], _ = lucene.Parse(q)
 	}
+	ctx.Case("expressions returned earlier are not changed by later calls to Parse", func() {
+		for i, q := range qs {
+			ctx.Count("snapshot_comparisons", 1)
+			if now := fmt.Sprintf("%#v", shared[i]); now != printed[i] {
+				ctx.Violate("c14:earlier-result-changed-by-later-parse", "the expression Parse(%q) returned was\n  %s\nand after parsing the rest of the corpus it is\n  %s", q, printed[i], now)
+				return
+			}
+		}
+	})
 	// sequential baseline, twice (determinism of repeated calls)
 	base := make([][]string, len(qs))
 	for i, q := range qs {
